@@ -122,6 +122,7 @@ def search(ctx, broken, disagreements):
                               'expected_by_spec': jsonable(alone[i][:2]), 'observed': jsonable(r[:2])})
         # long-lived process: the whole batch in several orders
         orders = [list(range(len(docs))), list(reversed(range(len(docs))))] + [rng.sample(range(len(docs)), len(docs)) for _ in range(ctx.n(2, 8))]
+        orders.append(list(range(len(docs))) * 2)          # every document a second time in the same process
         batch = list(ex.map(lambda o: run_worker([docs[i] for i in o], rng.choice(['0', '5'])), orders))
         for o, rs in zip(orders, batch):
             n += len(o)
